@@ -56,7 +56,10 @@ fn parse_build_metadata(input: &str) -> Vec<BuildMetadata> {
         .split('.')
         .map(|part| {
             if part.chars().all(|c| c.is_ascii_digit()) && (part == "0" || !part.starts_with('0')) {
-                BuildMetadata::UInt(part.parse().unwrap_or(0))
+                // Build metadata has no numeric meaning: keep digits that do not fit as text
+                part.parse()
+                    .map(BuildMetadata::UInt)
+                    .unwrap_or_else(|_| BuildMetadata::Str(part.to_string()))
             } else {
                 BuildMetadata::Str(part.to_string())
             }
@@ -96,6 +99,14 @@ impl FromStr for SemVer {
         let mut version = SemVer::new(major, minor, patch);
 
         if let Some(pre_release_match) = captures.name("prerelease") {
+            // A numeric identifier that does not fit must be rejected, not replaced by 0
+            if let Some(part) = pre_release_match.as_str().split('.').find(|part| {
+                part.chars().all(|c| c.is_ascii_digit()) && part.parse::<u64>().is_err()
+            }) {
+                return Err(ZervError::InvalidVersion(format!(
+                    "Pre-release identifier out of range: {part}"
+                )));
+            }
             let pre_release = parse_identifiers(pre_release_match.as_str());
             version = version.with_pre_release(pre_release);
         }
